@@ -1236,6 +1236,11 @@ def account(ctx, rep, cfg, sc, scn, viol, ss, mode):
     if rep.interleaving(sc.trace_hash(cfg["name"])):
         ss.add("sched/distinct_interleavings")
         ss.add("sched/%s/distinct_interleavings" % obj)
+    if viol and cfg.get("dir") and not os.path.isdir(cfg["dir"]):
+        ctx.inconc("scratch directory of %s vanished during the run "
+                   "(external interference, not a verdict)" % cfg["name"])
+        os.makedirs(cfg["dir"], exist_ok=True)
+        viol = []
     if viol:
         # confirm by replaying the recorded switch trace
         ref = [None]
@@ -1912,11 +1917,10 @@ class DBStress(StressRun):
         res = None
         if r < 0.35:
             kind = "set"
-            v = next(self.vctr)
+            v = res = next(self.vctr)
             c = self.stamp()
             try:
                 db[u] = db_value(v)
-                res = v
             except BaseException as e:   # noqa
                 exc = tb_summary(e)
         elif r < 0.65:
@@ -1969,6 +1973,10 @@ class DBStress(StressRun):
 
     def analyse(self):
         ctx = self.ctx
+        if self.tmp and not os.path.isdir(self.tmp):
+            ctx.inconc("scratch directory of %s vanished during the run "
+                       "(external interference, not a verdict)" % ctx.case_id)
+            return
         writes = {}
         reads = []
         for ti, log in enumerate(self.logs):
@@ -1981,6 +1989,11 @@ class DBStress(StressRun):
                         {"thread": ti, "user": u, "traceback": exc,
                          "params": self.P}, "%s raised %s" % (kind,
                                                               exc["repr"]))
+                    # a mutator that raised may still have taken effect
+                    if kind == "set":
+                        writes.setdefault(u, []).append((c, r, res))
+                    elif kind == "del":
+                        writes.setdefault(u, []).append((c, r, ABSENT))
                     continue
                 if kind == "set":
                     writes.setdefault(u, []).append((c, r, res))
